@@ -454,6 +454,25 @@ pub const HEADER_OPS: &[(&str, &[u8])] = &[
 ];
 
 pub fn generate(thorough: bool, seed: u64, out: &mut dyn Write) {
+    // the parts write their cases one format after the other; the check splits the case file into
+    // contiguous shards, so the lines are dealt round-robin into buckets first (deterministic) to give
+    // every shard the same mix of cheap and expensive formats
+    let mut buf: Vec<u8> = Vec::new();
+    generate_all(thorough, seed, &mut buf);
+    const BUCKETS: usize = 48;
+    let mut buckets: Vec<Vec<&[u8]>> = vec![Vec::new(); BUCKETS];
+    for (i, line) in buf.split(|b| *b == b'\n').filter(|l| !l.is_empty()).enumerate() {
+        buckets[i % BUCKETS].push(line);
+    }
+    for b in buckets {
+        for l in b {
+            out.write_all(l).unwrap();
+            out.write_all(b"\n").unwrap();
+        }
+    }
+}
+
+fn generate_all(thorough: bool, seed: u64, out: &mut dyn Write) {
     let mut rng = Rng::new(seed, "C18");
     for s in header_seeds(&mut rng) {
         mutate(&s, &mut rng, thorough, out);
